@@ -70,8 +70,10 @@ NoFV(attrs) == {attrs[i] : i \in {j \in 1..Len(attrs) : attrs[j].k \notin {"fill
 \* that identifies the exact value only if its denominator is <= 100 and, for
 \* float32 data, its magnitude is small enough for the rounding error to stay
 \* below the spacing of such fractions.  Other cells cannot be decided.
-RepCell(x, dt) == /\ x.d <= 100 /\ AbsI(x.n) <= 1000000
-                  /\ (dt \notin {"d"} \cup IntTypes => AbsI(x.n) <= 2000 * x.d)
+\* (cells of integer variables are logged exactly, whatever their magnitude)
+RepCell(x, dt) == \/ (dt \in IntTypes /\ x.d = 1)
+                  \/ /\ x.d <= 100 /\ AbsI(x.n) <= 1000000
+                     /\ (dt \notin {"d"} \cup IntTypes => AbsI(x.n) <= 2000 * x.d)
 AllRep(a, dt) == \A k \in 1..Len(a.vals) : a.mask[k] \/ RepCell(a.vals[k], dt)
 VarDiff(g, e, mode) ==
   IF g.dims # e.dims THEN "dimensions"
